@@ -17,6 +17,21 @@ THEOREMS = ['C12_labels_consecutive', 'C12_labels_unique', 'C12_nonvacuous']
 SUB_QUICK = ['C07', 'C09', 'C10', 'C18', 'C19', 'C20', 'C03', 'C05', 'C02']
 SUB_ALL = ['C01', 'C02', 'C03', 'C04', 'C05', 'C06', 'C07', 'C08', 'C09', 'C10', 'C11', 'C15', 'C17', 'C18', 'C19', 'C20']
 
+def const_positions_program():
+    """constants of every arithmetic type in every position an expression can take (the bytes of a constant are printed into the
+    assembly: whatever the code generator does not initialise shows up as run-to-run or stage-to-stage differences)"""
+    consts = [('int', '7'), ('long', '7000000000L'), ('unsigned char', "'c'"), ('float', '0.1f'), ('double', '0.1'), ('long double', '0.1L'), ('long double', '3.0L'), ('_Bool', '1'), ('char *', '"s"')]
+    L = ['int printf(const char *, ...); int sum(int n, ...); struct S { long double ld; float f; char c; double d; };']
+    for i, (t, c) in enumerate(consts):
+        L.append('%s g%d = %s; static %s sg%d[2] = { %s }; struct S st%d = { %s, 0.5f, 1, 2.5 };' % (t, i, c, t, i, c, i, '0.25L' if t == 'char *' else c))
+        L.append('%s fx%d(%s p, int k, ...) { return p; }' % (t, i, t))
+        L.append('%s r%d(int k) { if (k) return %s; %s l = %s; %s a[3] = { %s, %s }; struct S s = { %s, 1.5f }; s.ld = %s; printf("%%d", k, %s, l, a[1]); sum(2, %s, %s); fx%d(%s, 1, %s, %s); return k ? %s : l; }'
+                 % (t, i, c, t, c, t, c, c, '0.5L' if t == 'char *' else c, '1.0L' if t == 'char *' else c, c, c, c, i, c, c, c, c))
+        if t != 'char *':
+            L.append('%s u%d(int k) { %s x = -%s; x += %s; x = x * %s + (%s)%s; return (k ? %s : -%s) + ((%s)%s < x) + !%s; }' % (t, i, t, c, c, c, t, c, c, c, 'long double', c, c))
+    L.append('int main(void) { return 0; }')
+    return '\n'.join(L) + '\n'
+
 def main():
     run = Run(PID, THEOREMS)
     rng = run.rng
@@ -54,6 +69,7 @@ def main():
              'struct S { int a : 40; };\n', 'int main(void) { goto nowhere; }\n', '\xef\xbb\xbfint main(void) { return 0; }\r\n', 'int main(void) { switch (1) { case 1: case 1: ; } }\n']
     for i, t in enumerate(extra):
         f = os.path.join(wd, 'x%d.c' % i); open(f, 'wb').write(t.encode('latin-1')); inputs.append((f, []))
+    fcp = os.path.join(wd, 'constpos.c'); open(fcp, 'w').write(const_positions_program()); inputs.append((fcp, []))
     optsets = [['-S'], ['-E'], ['-S', '-fPIC'], ['-S', '-fno-common'], ['-E', '-DNDEBUG', '-DX=(1+2)', '-UGUARD_UNUSED'], ['-S', '-g']] if not run.quick() else [['-S'], ['-E'], ['-S', '-fPIC']]
 
     def compile_with(stage_dir, f, opts, cwd=None, setarch=False):
@@ -106,6 +122,27 @@ def main():
             a2 = compile_with(s2, f, opts); b2 = compile_with(s2, f, opts, setarch=True); c2 = compile_with(s2, f, opts, cwd='/')
             if a2 == b2 == c2 == a: count('unconfirmed-difference'); continue
             run.violation(dict(kind='output-depends-on-process', input=os.path.basename(f), options=opts, differs='without ASLR' if a != b else 'from another working directory'), dict(area='determinism', construct='aslr-cwd'))
+
+    # ---------------- the output must not depend on uninitialised memory: stage 1 under valgrind memcheck ----------------
+    # (bytes the compiler never wrote - padding of a union, a field left unset - differ from run to run and between a gcc-built and a
+    # self-built compiler, which zero-fills its locals; memcheck reports the first use of such a byte in a branch, an address or the output)
+    if sh('valgrind --version')[0] == 0:
+        mc_inputs = [(fcp, [])] + [(f, xo) for f, xo in inputs if f.startswith(wd) and '-E-only' not in xo][:(10 if run.quick() else 80)]
+        mc_inputs += [(f, xo) for f, xo in inputs if f.startswith(os.path.join(s1, 'test'))][::(5 if run.quick() else 1)] + [(os.path.join(s1, n), ['-D' + GUARD]) for n in (['type.c', 'unicode.c'] if run.quick() else ['type.c', 'unicode.c', 'tokenize.c', 'preprocess.c', 'parse.c', 'codegen.c', 'main.c', 'hashmap.c', 'strings.c'])]
+        def one_mc(j):
+            f, xo = j
+            out = os.path.join(wd, 'mc_%d.s' % (abs(hash(f)) % 10**9))
+            cmd = ['valgrind', '-q', '--error-exitcode=99', os.path.join(s1, 'chibicc'), '-cc1', '-I' + os.path.join(s1, 'include'), '-I/usr/local/include', '-I/usr/include/x86_64-linux-gnu', '-I/usr/include'] + xo + ['-cc1-input', f, '-cc1-output', out, f]
+            rc, o, e = sh(cmd, timeout=300)
+            return j, rc, e
+        for (f, xo), rc, e in pmap(one_mc, mc_inputs):
+            evals += 1; nontriv += 1; count('memcheck')
+            if rc == 99 or '== Invalid ' in e or 'uninitialised' in e:
+                first = [l for l in e.split('\n') if l.startswith('==')][:8]
+                what = 'uninitialised' if 'uninitialised' in e else 'invalid-access'
+                run.violation(dict(kind='output-depends-on-uninitialised-memory' if what == 'uninitialised' else 'invalid-memory-access', input=open(f, 'rb').read().decode('latin-1')[:3000] if f.startswith(wd) else os.path.relpath(f, s1), options=xo,
+                                   valgrind='\n'.join(first), how='valgrind -q --error-exitcode=99 chibicc -cc1 ... on the gcc-built compiler'), dict(area='determinism', construct='memcheck-' + what))
+    else: count('valgrind-missing')
 
     # ---------------- transfer: the other properties' correspondences against stage 2 ----------------
     subs = SUB_QUICK if run.quick() else SUB_ALL
